@@ -132,10 +132,10 @@ def disarm_watchdog():
 def guarded_execute(prop, sc, wall=None):
     """Execute one scenario under the watchdog.  An expiry is only a suspicion: on this (virtualised) machine a process
     was seen to lose 2 s and more in the middle of a run that normally takes milliseconds, with the lost time booked as
-    its own CPU time.  The scenario is therefore executed again with ten times the budget, and only a second expiry
+    its own CPU time.  The scenario is therefore executed again with three times the budget (at least 30 s), and only a second expiry
     counts: as the property's verdict where the watchdog is its oracle (hang_rule), as a harness error elsewhere."""
     wall = wall or getattr(prop, "run_wall", 20.0)
-    for attempt, budget in enumerate((wall, max(10 * wall, 30.0))):
+    for attempt, budget in enumerate((wall, max(3 * wall, 30.0))):
         arm_watchdog(budget)
         try:
             out = prop.execute(sc)
@@ -148,6 +148,7 @@ def guarded_execute(prop, sc, wall=None):
                 continue
             hang_rule = getattr(prop, "hang_rule", None)
             if hang_rule and LAST_HANG["kind"] == "cpu":
+                _note_error()  # (counts towards the cut-off as well: every further hang costs two watchdog expiries)
                 out = Outcome()
                 out.bad(hang_rule, "run did not finish within %.0fs of CPU time (and, run again, not within %.0fs)" % (wall, budget))
                 out.digest = ("hang",)
@@ -206,6 +207,17 @@ def _pin(prop=None):
         pass
 
 
+ERRS = None  # shared counter of scenario-level harness errors (hangs, crashes inside a scenario) of the running check
+MAX_ERRS = 4  # after that many the check cannot end with exit 0 any more: the remaining scenarios are skipped instead of
+#                paying a watchdog expiry (plus its confirmation run) for each of them on a tree that hangs everywhere
+
+
+def _note_error():
+    if ERRS is not None:
+        with ERRS.get_lock():
+            ERRS.value += 1
+
+
 def _chunk(args):
     pid, tier, vseed, start, count, deadline = args
     faulthandler.enable()
@@ -220,7 +232,7 @@ def _chunk(args):
         "sim_time": 0.0, "steps": 0, "samples": [], "viol": [], "errors": [], "nt_digests": set(), "scenarios": 0,
     }
     for i in range(start, start + count):
-        if time.time() > deadline:
+        if time.time() > deadline or (ERRS is not None and ERRS.value >= MAX_ERRS):
             break
         seed = run_seed(vseed, pid, i)
         rng = random.Random(seed)
@@ -231,9 +243,11 @@ def _chunk(args):
             out = guarded_execute(prop, sc)
         except HarnessError as e:
             agg["errors"].append(str(e)[:800])
+            _note_error()
             continue
         except Exception:
             agg["errors"].append("index %d seed %d: %s" % (i, seed, traceback.format_exc()[-1500:]))
+            _note_error()
             continue
         agg["n"] += out.evals
         agg["scenarios"] += 1
@@ -457,6 +471,8 @@ def check(pid, tier="quick", runs=None, procs=None, vseed=None, budget=None):
     dump = []
     ctx = multiprocessing.get_context("fork")
     harness_error = None
+    global ERRS
+    ERRS = ctx.Value("i", 0)  # inherited by the forked workers
     with cf.ProcessPoolExecutor(max_workers=procs, mp_context=ctx) as ex:
         futs = [ex.submit(_chunk, t) for t in tasks]
         try:
